@@ -598,6 +598,10 @@ pub struct World {
     next_tag: Cell<u32>,
     /// per-port last state, to detect transitions (node, port) -> state
     pub transitions: u64,
+    pub max_events: u64,
+    storm_at: Tt,
+    storm_count: u64,
+    storm_reported: bool,
     /// corrupt hook output
     pub corrupted: u64,
 }
@@ -636,6 +640,10 @@ impl World {
             clock_log_seen: Vec::new(),
             next_tag: Cell::new(1),
             transitions: 0,
+            max_events: 5_000_000,
+            storm_at: Tt::MAX,
+            storm_count: 0,
+            storm_reported: false,
             corrupted: 0,
         }
     }
@@ -829,6 +837,32 @@ impl World {
     pub fn step(&mut self, ch: &mut Chooser, until: Tt) -> Option<Stepped> {
         let at = self.queue.peek()?.0.at;
         if at > until {
+            return None;
+        }
+        // every run is bounded: a host that obeys timer actions must not be driven into an
+        // endless burst of zero-duration timers
+        if at == self.storm_at {
+            self.storm_count += 1;
+        } else {
+            self.storm_at = at;
+            self.storm_count = 0;
+        }
+        if self.storm_count > 20_000 || self.events > self.max_events {
+            if !self.storm_reported {
+                self.storm_reported = true;
+                let call = self.last_call.as_ref().map(|c| c.2).unwrap_or("?");
+                if self.storm_count > 20_000 {
+                    self.out.violate(
+                        "C12",
+                        "C12.timer_storm",
+                        format!("last_call={call}"),
+                        format!("more than 20000 events at one simulated instant t={:.6}s (last host call {call}): the port keeps re-arming a zero-duration timer", tt_to_secs(at)),
+                    );
+                } else {
+                    self.out.probe("run_stopped_at_event_cap");
+                }
+            }
+            self.queue.clear();
             return None;
         }
         let Reverse(e) = self.queue.pop().unwrap();
@@ -1377,6 +1411,12 @@ impl World {
                     "C08.clock_command_from_non_slave_port",
                     format!("call={call} state={:?}", after[pi]),
                     format!("node {ni} port {pi} issued {:?} during {call} while {:?} -> {:?}", c.cmd, before[pi], after[pi]),
+                );
+                self.out.violate(
+                    "C13",
+                    "C13.clock_command_after_leaving_slave",
+                    format!("call={call} state={:?}", after[pi]),
+                    format!("node {ni} port {pi} issued {:?} during {call} although it is not slave ({:?} -> {:?}): a servo keeps commanding the clock after its port stopped being slave", c.cmd, before[pi], after[pi]),
                 );
                 if after[pi] == PState::Faulty || before[pi] == PState::Faulty {
                     self.out.violate("C14", "C14.faulty_port_steers_clock", format!("call={call}"), format!("node {ni} port {pi} issued {:?} while Faulty", c.cmd));
